@@ -119,24 +119,34 @@ Theorem C18_pool_got_are_returns : forall (new : bool) (progs : list (list pop))
 Proof. exact pool_got_are_returns. Qed.
 Print Assumptions C18_pool_got_are_returns.
 
-(* Data-race freedom of Get and Put, in the model. The step function itself
-   ([pstep_thread_acc]; [pstep_thread], used everywhere above, is its first
-   component) reports the accesses a step makes to the shared state: plain
-   reads / writes of the field New and of the inner sync.Pool's own New field,
-   and calls into sync.Pool (synchronised inside the runtime: trusted).
-   The report is faithful: a step that reports no write of New leaves New
-   unchanged; a step that reports no call into sync.Pool leaves the bag
-   unchanged; no step changes another goroutine's locals; a step that reports
-   no access to New behaves the same for every value of New, and a step that
-   reports no call into sync.Pool behaves the same for every content of the bag. *)
+(* Data-race freedom of Get and Put, in the model. The shared state of a Pool
+   is the plain field New ([p_new]), the inner sync.Pool's own plain field
+   New ([p_poolnew]: nil in the zero value of Pool; the code before the
+   repair assigned it on every Get) and the inner pool's items ([p_bag]).
+   The step function itself ([pstep_thread_acc]; [pstep_thread], used
+   everywhere above, is its first component) reports the accesses a step
+   makes to them: plain reads / writes of the two fields, and calls into
+   sync.Pool (synchronised inside the runtime: trusted).
+   The report is faithful, for all three locations and for the goroutine-local
+   state: a step that reports no write of a field leaves it unchanged; a step
+   that reports no call into sync.Pool leaves the bag unchanged; no step
+   changes another goroutine's locals, nor depends on them (it does the same
+   whatever state [th] another goroutine t' is in); a step that reports no
+   access to a field behaves the same for every value of the field, and a
+   step that reports no call into sync.Pool behaves the same for every content
+   of the bag. *)
 Theorem C18_pool_step_accesses : forall (c : pconfig) (t : tid) (ch : pchoice) (c' : pconfig) (accs : list paccess),
   pstep_thread_acc c t ch = Some (c', accs) ->
   pstep_thread c t ch = Some c' /\
   (~ In (PlainWrite FNew) accs -> p_new c' = p_new c) /\
+  (~ In (PlainWrite FPoolNew) accs -> p_poolnew c' = p_poolnew c) /\
   (~ In PoolInternal accs -> p_bag c' = p_bag c) /\
   (forall t', t' <> t -> nth_error (p_threads c') t' = nth_error (p_threads c) t') /\
+  (forall t' th, t' <> t -> pstep_thread_acc (with_thread t' th c) t ch = Some (with_thread t' th c', accs)) /\
   (~ In (PlainRead FNew) accs -> ~ In (PlainWrite FNew) accs ->
      forall b, pstep_thread_acc (with_new b c) t ch = Some (with_new b c', accs)) /\
+  (~ In (PlainRead FPoolNew) accs -> ~ In (PlainWrite FPoolNew) accs ->
+     forall b, pstep_thread_acc (with_poolnew b c) t ch = Some (with_poolnew b c', accs)) /\
   (~ In PoolInternal accs -> forall bag, pstep_thread_acc (with_bag bag c) t ch = Some (with_bag bag c', accs)).
 Proof. exact pool_step_accesses_faithful. Qed.
 Print Assumptions C18_pool_step_accesses.
@@ -144,13 +154,14 @@ Print Assumptions C18_pool_step_accesses.
 (* In every run, every access any goroutine makes ([pool_accesses]: the
    reports of all steps of the run) is a plain READ of New, a plain READ of
    the inner pool's New, or a call into sync.Pool: no step writes a shared
-   plain field (New keeps its initial value for ever), so no two accesses of
-   a run conflict (same plain field, one of them a write). What is NOT
-   proved here: that sync.Pool synchronises its own calls (trusted), and
-   that the Go code performs no access the transcription omits (race
-   detector run of the harness). *)
+   plain field (both New fields keep their initial values for ever), so no
+   two accesses of a run conflict (same plain field, one of them a write).
+   What is NOT proved here: that sync.Pool synchronises its own calls
+   (trusted), and that the Go code performs no access the transcription
+   omits (race detector run of the harness). *)
 Theorem C18_pool_no_plain_write : forall (new : bool) (progs : list (list pop)) (s : list sitem),
   p_new (prun (pinit new progs) s) = new /\
+  p_poolnew (prun (pinit new progs) s) = false /\
   (forall t a, In (t, a) (pool_accesses (pinit new progs) s) ->
      a = PlainRead FNew \/ a = PlainRead FPoolNew \/ a = PoolInternal) /\
   (forall t1 a1 t2 a2, In (t1, a1) (pool_accesses (pinit new progs) s) ->
@@ -161,8 +172,11 @@ Print Assumptions C18_pool_no_plain_write.
 (* Non-vacuity of the two theorems above: the accesses of a run in which
    goroutine 0 misses in the pool and calls New while goroutine 1 puts an item;
    the read of New at "if p.New == nil" is reported and the step does depend
-   on the field (different next pc for New set / nil); a conflicting pair
-   exists as soon as a write is among the accesses. *)
+   on the field (different next pc for New set / nil); the read of the inner
+   pool's New on a miss is reported and the step does depend on it (nil: go on
+   to p.New(); set: the inner hook made the item); a step does not depend on
+   another goroutine's locals; a conflicting pair exists as soon as a write is
+   among the accesses. *)
 Example C18_pool_accesses_example :
   pool_accesses (pinit true [[PGet]; [PPutFresh]])
     [SThr 0 Miss; SThr 0 Miss; SThr 1 Miss; SThr 0 Miss; SThr 1 Miss; SThr 0 Miss; SThr 0 Miss]
@@ -170,6 +184,10 @@ Example C18_pool_accesses_example :
   (let c := prun (pinit true [[PGet]]) [SThr 0 Miss] in
    option_map (fun x => map p_pc (p_threads (fst x))) (pstep_thread_acc c 0 Miss) = Some [GPool] /\
    option_map (fun x => map p_pc (p_threads (fst x))) (pstep_thread_acc (with_new false c) 0 Miss) = Some [GRet Zero SrcZeroNoNew]) /\
+  (let c := prun (pinit true [[PGet]; [PGet]]) [SThr 0 Miss; SThr 0 Miss] in
+   option_map (fun x => map p_pc (p_threads (fst x))) (pstep_thread_acc c 0 Miss) = Some [GNew; GIdle] /\
+   option_map (fun x => map p_pc (p_threads (fst x))) (pstep_thread_acc (with_poolnew true c) 0 Miss) = Some [GRet (Tok 0 0) SrcNew; GIdle] /\
+   option_map (fun x => map p_pc (p_threads (fst x))) (pstep_thread_acc (with_thread 1 (PThread [] GPool [] 0 []) c) 0 Miss) = Some [GNew; GPool]) /\
   conflicting (PlainWrite FPoolNew) (PlainRead FPoolNew).
 Proof. vm_compute. repeat split. exists FPoolNew. left. split; [reflexivity|left; reflexivity]. Qed.
 
